@@ -52,7 +52,7 @@ CHECKS = {
         thorough=dict(procs=32, checks=1500, timeout=2400, fuzz=dict(target="FuzzDecode", secs=120)),
         mem_gb=6,
         rule="rapid draws (type, valid or wire-edited message, mutation list); per case up to 10 drawn mutations (prefix, byte, length/count field from a hostile set, splice, insert, delete, random) and, for messages <=160 bytes, "
-             "EVERY prefix, every length/count field x 11 hostile values and every type-code byte x 15 codes; one case in ten is instead a time-scaling measurement of one of 20 input families (classes scale:*); each input is one evaluation; non-trivial = verdict is not ok and the model got past the first field or into a container; distinct by hash(type signature, input bytes)",
+             "EVERY prefix, every length/count field x 11 hostile values and every type-code byte x 25 codes (all 256 values at the first three positions); one case in ten is instead a time-scaling measurement of one of 20 input families (classes scale:*); each input is one evaluation; non-trivial = verdict is not ok and the model got past the first field or into a container; distinct by hash(type signature, input bytes)",
         technique="property-based testing / structured fuzzing (rapid): mutation of valid messages, three-valued reference classifier (well-formed / malformed / open), allocation-delta and crash oracles in an isolated worker with an address-space cap; metamorphic CPU-time scaling relation (n vs 16n) over parameterised input families",
         level_text="Structured mutation fuzzing against a three-valued reference classifier: success iff well-formed (value and n compared), error iff malformed, no panic/fault/worker death, TotalAlloc delta <= 1 MiB + K(T)*len(input), input buffer unmodified. Worker deaths are replayed from a one-case journal.",
         level_note="'Time proportional to input' is decided as termination (driver timeout) and, for 20 families of inputs parameterised by a size n (thousands of unknown / repeated / mismatching fields, lists, sets and maps of every element shape, huge strings, empty inner lists, skipped containers; whole or cut to k/8), by a metamorphic CPU-time relation: thread CPU time (CLOCK_THREAD_CPUTIME_ID, collector off, minimum of 3) at 16n must not exceed 160x that at n (proportional: 12-20x, Go maps outgrowing the caches up to ~70x, quadratic 256x) in three measurements spread over two seconds and then 8x in each half n->4n->16n; inputs too fast to measure are counted and skipped. Anything between n^1 and n^2 is not decided. Allocation is measured with GC off in a single goroutine after a warm-up use of the type; native coverage-guided fuzzing is a separate thorough-tier step.",
@@ -163,7 +163,7 @@ CHECKS = {
         rule="configurations = worker processes started with 12 FRUGAL_MAX_INLINE_* settings (decimal, hex, binary, octal, underscore, MaxInt64; one control process with empty environment and no legacy call); inside each, rapid draws (type, value, message, 4 lists of legacy calls: Pretouch on valid/invalid/nil/int/map arguments with option constructors at 0,-1,MaxInt..., NoJIT, setters, GetStats) placed before size, encode, decode and after; messages are reader-valid edits (shuffle, drop, insert, retype, renumber, odd bool bytes); "
              "non-trivial = non-default environment and >=3 legacy calls around the codec calls; distinct by (environment, placement, type)",
         technique="property-based testing (rapid) over configurations: child processes per environment setting, legacy-call placements drawn per case; two oracles: the configuration-independent reference model, and a differential against a fresh control process (empty FRUGAL_* environment, no legacy call) on size, encoding, decode outcome and the re-encoding of the decoded value; API contracts of the no-op controls",
-        level_text="Each configuration process checks sizes, encoded bytes and decoded values of random (type, value, message) triples against the reference model while legacy calls are interleaved at drawn placements; since the model is the same in every process, equal-to-model in all of them means identical across settings, the control process included. In addition one case in three, and every case whose message carries a bool byte other than 0/1 (one message in three may), is re-run in a brand-new control process and the outcomes (size, canonical encoding, decode n/error, decoded value, canonical re-encoding of the decoded value) must be equal: this reaches results the model leaves open. Pretouch must return nil and never panic, setters return their argument, GetStats is zero.",
+        level_text="Each configuration process checks sizes, encoded bytes and decoded values of random (type, value, message) triples against the reference model while legacy calls are interleaved at drawn placements; since the model is the same in every process, equal-to-model in all of them means identical across settings, the control process included. In addition one case in three, and every case whose message carries a bool byte other than 0/1 (one message in three may), is re-run in a brand-new control process and the outcomes (size, canonical encoding, decode n/error, decoded value, canonical re-encoding of the decoded value) must be equal: this reaches results the model leaves open. After the legacy calls, half of the cases repeat their codec calls from four goroutines at once (private values and buffers) and each must see the sequential outcome. Pretouch must return nil and never panic, setters return their argument, GetStats must not panic (what it reports is not constrained by the property).",
         level_note="Invalid environment values panic at package init by design and are outside the property.",
     ),
     "C18": dict(
